@@ -104,6 +104,14 @@ func VerifyFunc(prog *Program, pk *Pkg, fc *FuncContract, tier string) (rep *Fun
 		return rep
 	}
 	rep.FuncDecl = fd
+	if inst := fc.Opts["instantiate"]; inst != "" {
+		f := strings.Fields(inst)
+		if len(f) == 2 {
+			if bt, ok := basicByName[f[1]]; ok {
+				setTypeParamByName(pk.path, f[0], bt)
+			}
+		}
+	}
 	c := newCtx(prog, pk, modeOf(fc.Mode))
 	c.tier = tier
 	c.fnName = rep.Name
